@@ -342,6 +342,8 @@ package stdlibspec
 //@ ghost heap sbc *strings.Builder string
 //@ spec func app1(s string, c byte) string
 //@ axiom app1-len: forall s string, c byte :: len(s) < 4611686018427387903 ==> len(app1(s, c)) == len(s) + 1
+// appending byte i of s to the piece s[a:i] gives the piece s[a:i+1]
+//@ axiom app1-substring: forall s string, a int, i int {app1(s[a:i], s[i])} :: 0 <= a && a <= i && i < len(s) ==> app1(s[a:i], s[i]) == s[a:i+1]
 //@ axiom strOf-empty: forall a Arr[int,byte], off int {strOf(a, off, 0)} :: strOf(a, off, 0) == ""
 //@ axiom strOf-snoc: forall a Arr[int,byte], off int, n int {app1(strOf(a, off, n), a[off + n])} :: 0 <= n && n < 4611686018427387904 ==> app1(strOf(a, off, n), a[off + n]) == strOf(a, off, n + 1)
 //@ extern (*strings.Builder).WriteByte(b, c)
